@@ -310,6 +310,77 @@ func runC18(c *Ctx) {
 		bad = uniq(bad)
 		c.verdict(len(bad) == 0, "module | local containers shared with spawned goroutines are not written afterwards", "-", fmt.Sprintf("%d goroutine closure(s) use a captured local map/slice; none is written by its spawner after the go statement", n), join(bad), sites...)
 	})
+	c.rule("C18.R7", "a pooled buffer has one user at a time: the write buffers come from a sync.Pool shared by both header stores, whose mutexes do not exclude each other; from Get to Put the buffer belongs to the function that took it, so in a function that puts a pooled buffer back nothing derived from it (the buffer itself, the slice Bytes() returns) is returned to the caller, and nothing uses it after a Put that is not deferred - the other store's writer may already be filling the same memory", func() {
+		get := c.method("sync", "Pool", "Get")
+		put := c.method("sync", "Pool", "Put")
+		n := 0
+		var bad []string
+		var sites []ssa.Instruction
+		for _, fn := range c.P.Funcs {
+			gets := find(fn, callTo(get))
+			if len(gets) == 0 {
+				continue
+			}
+			isGet := func(x ssa.Value) bool {
+				in, ok := x.(ssa.Instruction)
+				return ok && callTo(get)(in)
+			}
+			fromPool := func(v ssa.Value) bool { return ir.InfluencedBy(v, isGet) }
+			var puts []ssa.Instruction
+			for _, in := range find(fn, callTo(put)) {
+				cc := ir.CallOf(in)
+				if len(cc.Args) >= 2 && fromPool(cc.Args[1]) {
+					puts = append(puts, in)
+				}
+			}
+			if len(puts) == 0 {
+				continue
+			}
+			n++
+			sites = append(sites, gets...)
+			for _, r := range find(fn, isExit) {
+				ret, ok := r.(*ssa.Return)
+				if !ok {
+					continue
+				}
+				for i := range ret.Results {
+					v := ir.RetVal(ret, i)
+					if _, isErr := v.Type().Underlying().(*types.Interface); isErr {
+						continue
+					}
+					if fromPool(v) {
+						bad = append(bad, c.nm(fn)+" returns memory of the pooled buffer at "+c.at(r)+" although it puts the buffer back")
+					}
+				}
+			}
+			for _, p := range puts {
+				if _, isDefer := p.(*ssa.Defer); isDefer {
+					continue
+				}
+				ir.WalkAfter(p, ir.BackEdges(fn), func(in ssa.Instruction) bool {
+					var ops []*ssa.Value
+					for _, op := range in.Operands(ops) {
+						if *op == nil {
+							continue
+						}
+						if _, isCallInstr := (*op).(*ssa.Call); isCallInstr && isGet(*op) {
+							continue
+						}
+						if cc := ir.CallOf(in); cc != nil && callTo(get, put)(in) {
+							continue
+						}
+						if fromPool(*op) {
+							bad = append(bad, c.nm(fn)+" uses the pooled buffer at "+c.at(in)+" after putting it back at "+c.at(p))
+						}
+					}
+					return true
+				})
+			}
+		}
+		sort.Strings(bad)
+		c.verdict(n >= 2 && len(bad) == 0, "module | pooled buffers are not used after, or handed out beyond, their Put", "", fmt.Sprintf("%d function(s) take and put back a pooled buffer; none returns its memory or uses it after the Put", n), join(uniq(bad))+fmt.Sprintf(" (%d functions)", n), c.ats(sites)...)
+	})
+
 	c.rule("C18.R4", "concurrent readers do not share scratch memory: the header stores' read paths run under the shared (read) lock, so several may execute at once; every buffer they let the file fill (File.ReadAt / io.ReaderAt destinations in package headerfs) is a slice made in the reading function itself, never memory reachable from the store (a per-store scratch buffer would be written by all concurrent readers)", func() {
 		var bad, sites []string
 		n := 0
